@@ -388,7 +388,7 @@ let rec handle (line : string) : string =
         div := d';
         "c=" ^ hex_of_bytes c ^ " rt=" ^ verdict_str (List.nth vs (List.length vs - 1))
       | _ -> "?") (List.tl parts))
-  | "R" :: key :: iv :: chunks ->
+  | "R" :: key :: iv :: chunks | "XR" :: key :: iv :: chunks ->
     let (vs, _) = M.model_feed (ks_of_hexkey key) M.rinit (iv_of_hex iv) (List.map bytes_of_hex chunks) in
     String.concat " ; " (List.map verdict_str vs)
   | ["D"; plain] -> verdict_str (M.decode_frame (bytes_of_hex plain))
